@@ -407,3 +407,61 @@ func H_C04_aliases() {
 	verif.Assert(sameMultiset(prs, want), "multiset")
 	verif.Reach("end")
 }
+
+// H_C04_casekeys: key columns whose names differ only in letter case are
+// different columns: a two-column equi-join on (x, X) pairs rows that agree
+// on both, under every strategy and conjunct order.
+func H_C04_casekeys() {
+	jt := verif.Choose("type", 3)
+	strat := verif.Choose("strategy", 3)
+	order := verif.Choose("conjunct-order", 2)
+	if strat == 2 && jt != 0 {
+		verif.Assume(false)
+	}
+	vals := []float64{1, 2}
+	pick := func(l string) float64 { return vals[verif.Choose(l, 2)] }
+	lrows := []Map{{"x": pick("l0x"), "X": pick("l0X")}, {"x": pick("l1x"), "X": pick("l1X")}}
+	rrows := []Map{{"y": pick("r0y"), "Y": pick("r0Y")}, {"y": float64(1), "Y": float64(2)}}
+	on := "a.x = b.y AND a.X = b.Y"
+	if order == 1 {
+		on = "a.X = b.Y AND a.x = b.y"
+	}
+	got, ok := runQuery(Map{"l": []any{lrows[0], lrows[1]}, "r": []any{rrows[0], rrows[1]}}, "SELECT * FROM l a "+joinKeyword(jt, strat, false)+" r b ON "+on)
+	if !ok {
+		return
+	}
+	var norm []any
+	for _, g := range got {
+		m, isMap := g.(Map)
+		if !isMap || len(m) != 2 {
+			verif.Assert(false, "row-shape")
+			return
+		}
+		norm = append(norm, Map{"x": m["a"], "y": m["b"]})
+	}
+	prs, shaped := joinPairs(norm, lrows, rrows)
+	verif.Assert(shaped, "row-shape")
+	if !shaped {
+		return
+	}
+	var want [][2]int
+	lm, rm := [2]bool{}, [2]bool{}
+	for i, l := range lrows {
+		for j, r := range rrows {
+			if f64of(l["x"]) == f64of(r["y"]) && f64of(l["X"]) == f64of(r["Y"]) {
+				want = append(want, [2]int{i, j})
+				lm[i], rm[j] = true, true
+			}
+		}
+	}
+	for i := 0; i < 2; i++ {
+		if jt == 1 && !lm[i] {
+			want = append(want, [2]int{i, -1})
+		}
+		if jt == 2 && !rm[i] {
+			want = append(want, [2]int{-1, i})
+		}
+	}
+	verif.Assert(sameMultiset(prs, want), "multiset")
+	verif.Reach("end")
+}
